@@ -48,24 +48,26 @@ Definition lift {A} (o : out A) : M A :=
 
 (* field updates *)
 Definition with_heap (s : vm) (h : heap) : vm :=
-  mk_vm h (st s) (g_bind s) (g_slots s) (stack s) (sp s) (bp s) (ep s) (ip s) (acc s) (out_log s).
+  mk_vm h (st s) (g_bind s) (g_slots s) (stack s) (scap s) (sp s) (bp s) (ep s) (ip s) (acc s) (out_log s).
 Definition with_store (s : vm) (x : store) : vm :=
-  mk_vm (hp s) x (g_bind s) (g_slots s) (stack s) (sp s) (bp s) (ep s) (ip s) (acc s) (out_log s).
-Definition with_stack (s : vm) (l : list vcell) (p : N) : vm :=
-  mk_vm (hp s) (st s) (g_bind s) (g_slots s) l p (bp s) (ep s) (ip s) (acc s) (out_log s).
+  mk_vm (hp s) x (g_bind s) (g_slots s) (stack s) (scap s) (sp s) (bp s) (ep s) (ip s) (acc s) (out_log s).
+Definition with_stack (s : vm) (l : tbl vcell) (p : N) : vm :=
+  mk_vm (hp s) (st s) (g_bind s) (g_slots s) l (scap s) p (bp s) (ep s) (ip s) (acc s) (out_log s).
+Definition with_scap (s : vm) (c : N) : vm :=
+  mk_vm (hp s) (st s) (g_bind s) (g_slots s) (stack s) c (sp s) (bp s) (ep s) (ip s) (acc s) (out_log s).
 Definition with_sp (s : vm) (p : N) : vm := with_stack s (stack s) p.
 Definition with_acc (s : vm) (v : vcell) : vm :=
-  mk_vm (hp s) (st s) (g_bind s) (g_slots s) (stack s) (sp s) (bp s) (ep s) (ip s) v (out_log s).
+  mk_vm (hp s) (st s) (g_bind s) (g_slots s) (stack s) (scap s) (sp s) (bp s) (ep s) (ip s) v (out_log s).
 Definition with_ip (s : vm) (i : N * N) : vm :=
-  mk_vm (hp s) (st s) (g_bind s) (g_slots s) (stack s) (sp s) (bp s) (ep s) i (acc s) (out_log s).
+  mk_vm (hp s) (st s) (g_bind s) (g_slots s) (stack s) (scap s) (sp s) (bp s) (ep s) i (acc s) (out_log s).
 Definition with_bp (s : vm) (b : N) : vm :=
-  mk_vm (hp s) (st s) (g_bind s) (g_slots s) (stack s) (sp s) b (ep s) (ip s) (acc s) (out_log s).
+  mk_vm (hp s) (st s) (g_bind s) (g_slots s) (stack s) (scap s) (sp s) b (ep s) (ip s) (acc s) (out_log s).
 Definition with_ep (s : vm) (e : N) : vm :=
-  mk_vm (hp s) (st s) (g_bind s) (g_slots s) (stack s) (sp s) (bp s) e (ip s) (acc s) (out_log s).
+  mk_vm (hp s) (st s) (g_bind s) (g_slots s) (stack s) (scap s) (sp s) (bp s) e (ip s) (acc s) (out_log s).
 Definition with_globals (s : vm) (b : list (N * N)) (sl : list vcell) : vm :=
-  mk_vm (hp s) (st s) b sl (stack s) (sp s) (bp s) (ep s) (ip s) (acc s) (out_log s).
+  mk_vm (hp s) (st s) b sl (stack s) (scap s) (sp s) (bp s) (ep s) (ip s) (acc s) (out_log s).
 Definition with_log (s : vm) (l : list outev) : vm :=
-  mk_vm (hp s) (st s) (g_bind s) (g_slots s) (stack s) (sp s) (bp s) (ep s) (ip s) (acc s) l.
+  mk_vm (hp s) (st s) (g_bind s) (g_slots s) (stack s) (scap s) (sp s) (bp s) (ep s) (ip s) (acc s) l.
 
 (* ------------------------------------------------------------------ lists *)
 Fixpoint list_get {A} (l : list A) (i : N) : option A := nth_error l (N.to_nat i).
@@ -80,31 +82,30 @@ Definition len {A} (l : list A) : N := N.of_nat (length l).
 
 (* ------------------------------------------------------------------ stack *)
 (* stack.rs: a Vec of slots (initially 256 x Undefined, doubling) and sp = index
-   of the top value; slot 0 is never used by push *)
-Definition STACK_INIT : nat := 256.
-Definition stack_new : list vcell := repeat VUndef STACK_INIT.
+   of the top value; slot 0 is never used by push.  The model keeps the slots in a
+   table (absent = Undefined) and the Vec's length in [scap]. *)
+Definition STACK_INIT : N := 256.
+Definition stack_new : tbl vcell := tempty.
+Definition sget (s : vm) (i : N) : vcell := match tget (stack s) i with Some v => v | None => VUndef end.
+(* the slots 0..=sp as a list: Stack::iter_to_sp / to_continuation *)
+Definition stack_to_sp (s : vm) : list vcell := map (sget s) (range_asc 0 (S (N.to_nat (sp s)))).
 
 (* Stack::push, stack.rs:142-153: write at sp+1, growing (doubling) when needed *)
-Definition stack_grow (l : list vcell) : list vcell := l ++ repeat VUndef (length l).
 Definition push (v : vcell) : M unit := fun s =>
-  let l := if sp s + 1 <? len (stack s) then stack s else
-           (* one doubling suffices unless the vector is empty (never: initial 256) *)
-           stack_grow (stack s) in
-  ROk tt (with_stack s (list_set l (sp s + 1) v) (sp s + 1)).
+  let cap := if sp s + 1 <? scap s then scap s else scap s * 2 in
+  ROk tt (with_scap (with_stack s (tset (stack s) (sp s + 1) v) (sp s + 1)) cap).
 
 (* Stack::pop, stack.rs:158-167: Err(InvalidStackIndex) when sp = 0 *)
 Definition pop_raw : M vcell := fun s =>
   if sp s =? 0 then RErr E_OTHER [] s
-  else match list_get (stack s) (sp s) with
-       | Some v => ROk v (with_sp s (sp s - 1))
-       | None => RErr E_OTHER [] (with_sp s (sp s - 1))
-       end.
+  else if sp s <? scap s then ROk (sget s (sp s)) (with_sp s (sp s - 1))
+  else RErr E_OTHER [] (with_sp s (sp s - 1)).
 
 (* Stack::get / get_mut (absolute index) *)
 Definition stack_get (i : N) : M vcell := fun s =>
-  match list_get (stack s) i with Some v => ROk v s | None => RErr E_OTHER [] s end.
+  if i <? scap s then ROk (sget s i) s else RErr E_OTHER [] s.
 Definition stack_put (i : N) (v : vcell) : M unit := fun s =>
-  if i <? len (stack s) then ROk tt (with_stack s (list_set (stack s) i v) (sp s))
+  if i <? scap s then ROk tt (with_stack s (tset (stack s) i v) (sp s))
   else RErr E_OTHER [] s.
 (* Stack::get_offset(offset: i64): index = (sp as i64 + offset) as usize; a negative
    sum wraps to a huge usize and is simply out of range *)
@@ -177,4 +178,4 @@ Definition as_cell (bname : N -> text) (fuel : nat) (v : vcell) : M cell := fun 
 
 (* the initial machine of Vm::new before load_builtins/load_prelude (vm/mod.rs:55-70) *)
 Definition vm_empty (chunk_size : N) : vm :=
-  mk_vm (heap_new chunk_size) store_empty [] [] stack_new 0 0 USIZE_MAX (USIZE_MAX, 0) VUndef [].
+  mk_vm (heap_new chunk_size) store_empty [] [] stack_new STACK_INIT 0 0 USIZE_MAX (USIZE_MAX, 0) VUndef [].
